@@ -1,5 +1,6 @@
 import HapModel.Drv.Basic
 import HapModel.Model.LdPlan
+import HapModel.Model.LdStat
 namespace Drv
 open Lean LdPlan
 
@@ -15,5 +16,62 @@ def hLdPlan (j : Json) : R Json := do
     | "gts_hap" => listGtsHapTarget fv ids
     | _ => listGtsVarTarget fv target ids
   pure <| jObj [("listed", jArr (r.map jStr))]
+
+def jStat (tol K : Int) : Option LdStat.Stat → Json
+  | none => Json.null
+  | some s => jObj [("num", jInt s.num), ("da", jInt s.da), ("db", jInt s.db),
+      ("accepted", jArr ((LdStat.accepted tol K s).map jInt))]
+
+/-- {"op":"calcLd","variants":[{"id":s,"alleles":[…]}…],"data":[[[a,b]…]…] (sample-major),"keep":[sample index…],
+     "haps":[{"id":s,"vars":[[id,allele]…]}…],"mode":"hap"|"gts_hap"|"gts_var","target":s,"tgtHap":bool,
+     "ids":null|[…],"tol":t,"K":k}
+    → the listed names (`LdPlan`) and, per row, the integer statistic of the target against it (`LdStat.rows`) with the
+      thousandths that may be printed for it -/
+def hCalcLd (j : Json) : R Json := do
+  let vars ← (← arrF j "variants").mapM (fun v => do pure (← strF v "id", ← listF str v "alleles"))
+  let data := (← listF (listOf (fun c => do match ← arr c with
+    | [a, b] => pure (← nat a, ← nat b) | _ => throw "cell")) j "data")
+  let keep ← listF nat j "keep"
+  let colOf : String → Nat := fun id => (vars.map (·.1)).idxOf id
+  let g : Transform.Geno := {
+    alleleIdx := fun key => match vars.lookup key.1 with
+      | some al => al.idxOf key.2
+      | none => 0,
+    cell := fun s id k => match (data.getD s []).getD (colOf id) (0, 0) with
+      | (a, b) => if k = 0 then a else b }
+  let haps ← (← arrF j "haps").mapM (fun h => do
+    let vs ← listF (fun p => do match ← arr p with
+      | [a, b] => pure ((← str a, ← str b) : Transform.Key) | _ => throw "key") h "vars"
+    pure (⟨← strF h "id", vs⟩ : Transform.Hap))
+  let mode ← strF j "mode"
+  let target ← strF j "target"
+  let tgtHap ← boolF j "tgtHap"
+  let ids ← optF (listOf str) j "ids"
+  let tol ← intF j "tol"
+  let K ← intF j "K"
+  let fv := vars.map (·.1)
+  let names := match mode with
+    | "hap" => listHapMode (haps.map (fun (h : Transform.Hap) => h.id)) target ids
+    | "gts_hap" => listGtsHapTarget fv ids
+    | _ => listGtsVarTarget fv target ids
+  let hapOf : String → R LdStat.Name := fun n => match haps.find? (fun (h : Transform.Hap) => h.id == n) with
+    | some h => pure (.hap h)
+    | none => throw s!"no haplotype {n}"
+  let tgt ← (if tgtHap then hapOf target else pure (.var target))
+  let listed ← names.mapM (fun n => do
+    let x ← (if mode == "hap" then hapOf n else pure (LdStat.Name.var n))
+    pure (n, x))
+  let rows := LdStat.rows g keep tgt listed
+  pure <| jObj [("listed", jArr (names.map jStr)),
+    ("rows", jArr (rows.map (fun (n, s) => jArr [jStr n, jStat tol K s])))]
+
+/-- {"op":"ldStat","a":[…],"b":[…],"tol":t,"K":k} → the integer statistic of two dosage vectors -/
+def hLdStat (j : Json) : R Json := do
+  let a ← listF int j "a"
+  let b ← listF int j "b"
+  let tol ← intF j "tol"
+  let K ← intF j "K"
+  pure <| jObj [("stat", jStat tol K (LdStat.stat a b)), ("rev", jStat tol K (LdStat.stat b a)),
+    ("self", jStat tol K (LdStat.stat a a))]
 
 end Drv
